@@ -268,7 +268,12 @@ func parseGroup(node *yaml.Node, schema Schema, offsetLine, offsetColumn int, co
 				}
 				return group
 			}
-			for _, rule := range unpackNodes(entry.val) {
+			rules := entry.val
+			if rules.Alias != nil {
+				// `rules: *anchor`, the list of rules is defined elsewhere.
+				rules = rules.Alias
+			}
+			for _, rule := range unpackNodes(rules) {
 				group.Rules = append(group.Rules, parseRuleStrict(rule, contentLines))
 			}
 		case "partial_response_strategy":
